@@ -10,7 +10,8 @@ from harness import core, scen
 from harness.gallina import gbool, glist, gn, gopt, gstr, gz
 
 ID = "C15"
-COQ_TARGETS = ["Reach.vo", "ReachProofs.vo", "ReachSpec.vo", "RefutedC15.vo", "CorrC15.vo", "Props/C15.vo"]
+COQ_TARGETS = ["Reach.vo", "ReachProofs.vo", "ReachSpec.vo", "RefutedC15.vo", "ReachList.vo", "ReachListProofs.vo",
+               "CorrC15.vo", "Props/C15.vo"]
 PROPS_FILE = "Props/C15.v"
 CORR_IMPORTS = "Base Heap Schema Reach CorrC15"
 ENTRY = "cassis.cas.Cas._find_all_fs (and to_xmi / to_json / load_cas_from_xmi / load_cas_from_json / typecheck / select / cas_to_comparable_text for the deadline)"
@@ -18,22 +19,29 @@ CASE_TIMEOUT_S = 10          # graph cases take milliseconds; the deadline repla
 RULE = (
     "Correspondence: systematic reference-graph shapes (chains, cycles, self-references, diamond chains, inline and "
     "shared FSArray/FSList holding the same or an already visited structure several times, null elements, cyclic tail "
-    "chains, TOP-ranged features, instances of uima.cas.TOP itself, cas:NULL ids, forced duplicate ids, explicit seeds) at several small sizes, random graphs "
+    "chains, TOP-ranged features, instances of uima.cas.TOP itself, cas:NULL ids, forced duplicate ids, explicit seeds; "
+    "lists of primitive values IntegerList/FloatList/StringList inline and shared, ending, with a missing tail, empty, and "
+    "cyclic through the tail of the last node back to the first / a middle / the last node itself) at several small sizes, random graphs "
     "over the same type system and random scen.gen_tspec/gen_cspec CASes; each with include_inlinable_arrays_and_lists "
     "False and True and with no / partial / all explicit ids. Observation: (xmiID, label) in the order returned, ids of "
-    "all objects and the generator's next id afterwards, or the error kind. Deadline obligation: 14 shapes x sizes "
+    "all objects and the generator's next id afterwards, or the error kind; and on a CAS built the same way to_xmi, "
+    "to_json, typecheck, load_cas_from_xmi, load_cas_from_json each under a CPU deadline of 2 s (oracle: every one comes "
+    "back; to_xmi may refuse with ValueError only a cyclic list it would have to write inline or a duplicate id; in Coq: "
+    "returned / refused = ReachList.to_xmi_lists). Deadline obligation: 19 shapes x sizes "
     "n,2n,4n (quick 250/500/1000, thorough 1000/2000/4000; diamond depth 50/100/200; type-reference ladder depth 15/30/60; "
-    "lists additionally 5000/8000) x 8 operations (to_json with type systems FULL and MINIMAL) in subprocesses, CPU cap and growth-ratio cap 12 per doubling. A case is non-trivial when its graph has a "
+    "lists, also of primitive values, additionally 5000/8000) x 8 operations (to_json with type systems FULL and MINIMAL) in subprocesses, CPU cap and growth-ratio cap 12 per doubling. A case is non-trivial when its graph has a "
     "cycle, a repeated/visited/null collection element, a shared collection, or explicit seeds."
 )
 TRUSTED = [
     "Coq 8.16.1 kernel and vm_compute; theorems in Props/C15.v are closed under the global context",
     "hand-written model coq/Reach.v of Cas._find_all_fs (enqueue-once by identity, id assignment at pop, duplicate-id "
-    "error, array/feature scanning, inline FSArray/FSList member scanning with a node set)",
+    "error, array/feature scanning, inline FSArray/FSList member scanning with a node set) and coq/ReachList.v of "
+    "CasXmiSerializer._collect_list_elements (node set, ValueError on a repeated node) with the branches that call it",
     "the schema (ancestors, effective features) is data here; that a TypeSystem answers like it is C10/C11",
     "harness/scen.py builders and harness/props/C15.py: build real objects, observe by identity, render cases",
     "wall-clock / CPU time is measured, not proved: the theorems bound loop iterations of the model (pops <= live objects, "
-    "list walk <= live objects per feature); the deadline oracle measures the implementation",
+    "list walks <= live objects per feature); the deadline oracle measures the implementation",
+    "ITIMER_VIRTUAL delivers SIGVTALRM to the Python main thread between bytecodes (per-operation CPU deadline on small graphs)",
 ]
 ASSUMPTIONS = [
     "well-formed heaps: every value the scan considers is None or a live feature structure",
@@ -53,7 +61,10 @@ G_TSPEC = [
     {"name": "g.Node", "super": TOP, "feats": [
         _f("a", "g.Node"), _f("b", "g.Node"), _f("top", TOP), _f("arr", FS_ARRAY, "g.Node"),
         _f("sarr", FS_ARRAY, "g.Node", True), _f("lst", FS_LIST), _f("slst", FS_LIST, None, True),
-        _f("n", T + "Integer"), _f("ints", T + "IntegerArray"), _f("strs", T + "StringList", None, True)]},
+        _f("n", T + "Integer"), _f("ints", T + "IntegerArray"), _f("strs", T + "StringList", None, True),
+        # lists of primitive values: written inside the element of the holder (no multipleReferencesAllowed) or shared
+        _f("il", T + "IntegerList"), _f("fl", T + "FloatList"), _f("sl", T + "StringList", None, False),
+        _f("sil", T + "IntegerList", None, True)]},
     {"name": "g.Sub", "super": "g.Node", "feats": [_f("c", "g.Node"), _f("farr", FS_ARRAY, None, False)]},
     {"name": "g.Ann", "super": ANNOTATION, "feats": [_f("ref", "g.Node"), _f("arr", FS_ARRAY), _f("lst", FS_LIST, None, False)]},
 ]
@@ -96,6 +107,19 @@ class B:
         self.objs[nodes[-1] - 1]["slots"]["tail"] = ref(last)
         return nodes[0], nodes
 
+    def plst(self, kind, n, cyclic=False, cycle_to=0):
+        """n nodes of uima.cas.NonEmpty<kind>List (kind Integer | Float | String); the tail of the last node is an
+        Empty<kind>List, or (cyclic) node number cycle_to.  Returns (first node label, node labels)."""
+        if n == 0:
+            e = self.new(T + "Empty%sList" % kind)
+            return e, [e]
+        nodes = [self.new(T + "NonEmpty%sList" % kind, None, head=PRIM_HEAD[kind](i)) for i in range(n)]
+        for i in range(n - 1):
+            self.objs[nodes[i] - 1]["slots"]["tail"] = ref(nodes[i + 1])
+        last = nodes[cycle_to] if cyclic else self.new(T + "Empty%sList" % kind)
+        self.objs[nodes[-1] - 1]["slots"]["tail"] = ref(last)
+        return nodes[0], nodes
+
     def ann(self, view=0, b=0, e=0, **refs):
         lab = self.new("g.Ann", None, sofa={"sofa": self.views[view]["name"]}, begin={"i": b}, end={"i": e},
                        **{k: ref(v) for k, v in refs.items()})
@@ -110,6 +134,11 @@ class B:
 
 def ref(x):
     return None if x is None else {"ref": x}
+
+
+PRIM_HEAD = {"Integer": lambda i: {"i": 3 * i - 4}, "Float": lambda i: {"f": (i - 1.5).hex()}, "String": lambda i: {"s": "s%d" % i}}
+PRIM_FEAT = {"Integer": "il", "Float": "fl", "String": "sl"}            # inline list features of g.Node
+PRIM_SHARED = {"Integer": "sil", "String": "strs"}                     # with multipleReferencesAllowed
 
 
 def sc_of(b, shape, inl=False, seeds=None, tspec=None):
@@ -216,6 +245,42 @@ def shapes(n):
             first, nodes = b.lst(elems + elems[:1], cyclic=True, cycle_to=min(cyc_to, n))
             b.add(b.node(**{feat: first}))
             out.append((name, b, None))
+    # lists of primitive values (IntegerList / FloatList / StringList): the tail of a node is an ordinary reference, so
+    # their nodes can form every shape the nodes of an FSList can.  Inline and shared, ending, with a missing tail, ...
+    b = B()
+    x = b.node()
+    for kind in ("Integer", "Float", "String"):
+        first, _ = b.plst(kind, n if kind != "Float" else n // 2)
+        b.set(x, **{PRIM_FEAT[kind]: first})
+    sfirst, snodes = b.plst("Integer", n + 1)
+    b.set(x, sil=sfirst)
+    b.add(x)
+    b.add(b.node(sil=sfirst, top=snodes[n // 2], il=b.plst("Integer", 0)[0]))
+    y = b.node(strs=b.plst("String", n)[0])
+    _first, open_nodes = b.plst("String", n)
+    del b.objs[open_nodes[-1] - 1]["slots"]["tail"]                    # the last node has no tail at all
+    b.set(y, sl=open_nodes[0])
+    b.add(y)
+    out.append(("prim_lists", b, None))
+    # ... and cyclic: the tail of the last node is the first node, a middle node or the last node itself
+    for kind in ("Integer", "Float", "String"):
+        for cyc_to in sorted({0, n // 2, n - 1}):
+            b = B()
+            first, nodes = b.plst(kind, n, cyclic=True, cycle_to=cyc_to)
+            b.add(b.node(**{PRIM_FEAT[kind]: first}))
+            out.append(("cyclic_inline_prim_list", b, None))
+    for kind in ("Integer", "String"):
+        b = B()
+        first, nodes = b.plst(kind, n, cyclic=True, cycle_to=(n - 1) // 2)
+        b.add(b.node(**{PRIM_SHARED[kind]: first}))
+        b.add(b.node(**{PRIM_SHARED[kind]: nodes[-1]}, top=nodes[n // 2]))
+        out.append(("cyclic_shared_prim_list", b, None))
+    # the cyclic list is entered from a node outside the cycle's holder: an inline list hanging off a shared one
+    b = B()
+    first, nodes = b.plst("Integer", n, cyclic=True, cycle_to=0)
+    b.add(b.node(sil=first))
+    b.add(b.node(il=nodes[n // 2]))
+    out.append(("cyclic_inline_prim_list", b, None))
     # collections inside annotations, in two views; a TOP feature holding a list node and an array
     b = B(nviews=2)
     hub = b.node()
@@ -295,7 +360,7 @@ def random_graph(rng, n):
             v = rng.randrange(len(b.views))
             bg = rng.randint(0, 6)
             nodes.append(b.ann(view=v, b=bg, e=rng.randint(bg, 8)))
-    colls = {"arr": [], "lst": []}
+    colls = {"arr": [], "lst": [], "Integer": [], "Float": [], "String": []}
 
     def pick():
         return None if rng.random() < 0.15 else rng.choice(nodes)
@@ -315,21 +380,34 @@ def random_graph(rng, n):
         colls["lst"].extend(ns)
         return first
 
+    def new_plst(kind):
+        n = rng.choice([0, 1, 2, 3, 5])
+        first, ns = b.plst(kind, n, cyclic=bool(n) and rng.random() < 0.3, cycle_to=rng.randrange(max(1, n)))
+        colls[kind].extend(ns)
+        return first
+
+    prim_feats = {"il": ("Integer", False), "fl": ("Float", False), "sl": ("String", False), "sil": ("Integer", True),
+                  "strs": ("String", True)}
     for lab in nodes:
         o = b.objs[lab - 1]
         t = o["type"]
-        feats = {"g.Node": ["a", "b", "top", "arr", "sarr", "lst", "slst"],
-                 "g.Sub": ["a", "b", "top", "arr", "sarr", "lst", "slst", "c", "farr"],
+        feats = {"g.Node": ["a", "b", "top", "arr", "sarr", "lst", "slst"] + list(prim_feats),
+                 "g.Sub": ["a", "b", "top", "arr", "sarr", "lst", "slst", "c", "farr"] + list(prim_feats),
                  "g.Ann": ["ref", "arr", "lst"], TOP: []}[t]
         for fn in feats:
-            if rng.random() < 0.45:
+            if rng.random() < (0.8 if fn in prim_feats else 0.45):
+                continue
+            if fn in prim_feats:
+                kind, shared = prim_feats[fn]
+                reuse = colls[kind] and rng.random() < (0.5 if shared else 0.15)
+                o["slots"][fn] = ref(rng.choice(colls[kind]) if reuse else new_plst(kind))
                 continue
             if fn in ("a", "b", "c", "ref"):
                 cands = [x for x in nodes if b.objs[x - 1]["type"] in ("g.Node", "g.Sub")]
                 if cands:
                     o["slots"][fn] = ref(rng.choice(cands))
             elif fn == "top":
-                pool = nodes + colls["arr"] + colls["lst"]
+                pool = nodes + colls["arr"] + colls["lst"] + colls["Integer"] + colls["String"]
                 o["slots"][fn] = ref(rng.choice(pool))
             elif fn in ("arr", "sarr", "farr"):
                 reuse = colls["arr"] and rng.random() < (0.5 if fn == "sarr" else 0.15)
@@ -423,7 +501,75 @@ def _probe_next(cas, ts, tspec):
     return p.xmiID
 
 
-_STATE = {"running": False, "hung": 0, "shrinks": 0}
+_STATE = {"running": False, "hung": 0, "shrinks": 0, "op_deadlines": 0}
+
+# The operations of the property on every small graph: each under its own CPU-time deadline (ITIMER_VIRTUAL, so that
+# neither machine load nor the engine's wall-clock alarm interferes).  The graphs have at most a few hundred feature
+# structures and every operation takes milliseconds; a deadline hit is a loop that does not end.
+OP_CPU_CAP_S = 2.0
+OP_CPU_CAP_AFTER_3_S = 0.3           # the tree under test loops: do not spend 2 s on every further case
+SMALL_OPS = ["to_xmi", "to_json", "typecheck", "load_cas_from_xmi", "load_cas_from_json"]
+NOT_BACK = ("deadline", "MemoryError", "RecursionError")
+
+
+class OpDeadline(BaseException):
+    pass
+
+
+def _on_vtalrm(signum, frame):
+    raise OpDeadline()
+
+
+def _bounded(seconds, fn):
+    """(kind, result): kind 'ok' | exception class name | 'deadline'."""
+    old = signal.signal(signal.SIGVTALRM, _on_vtalrm)
+    try:
+        try:
+            signal.setitimer(signal.ITIMER_VIRTUAL, seconds)
+            r = fn()
+            signal.setitimer(signal.ITIMER_VIRTUAL, 0)
+            return "ok", r
+        finally:
+            signal.setitimer(signal.ITIMER_VIRTUAL, 0)
+    except OpDeadline:
+        return "deadline", None
+    except Exception as e:  # noqa: the operation came back with an error
+        return type(e).__name__, None
+    finally:
+        signal.signal(signal.SIGVTALRM, old)
+
+
+def _run_small_ops(cassis, sc, ts, members):
+    """to_xmi / to_json / typecheck / load_* on a CAS built like the one that was traversed (the traversal observation
+    must see the ids before any serialiser assigned some).  Returns ({op: kind}, same member order as the traversed CAS)."""
+    cas, views, objs = scen.build_cas(cassis, ts, sc["cspec"])
+    lab = {id(o): l for l, o in objs.items()}
+    same = [[lab.get(id(x), -1) for x in v.select_all()] for v in views] == members
+    cap = OP_CPU_CAP_S if _STATE["op_deadlines"] < 3 else OP_CPU_CAP_AFTER_3_S
+    out, docs = {}, {}
+    for op in SMALL_OPS:
+        if op == "to_xmi":
+            fn = cas.to_xmi
+        elif op == "to_json":
+            fn = cas.to_json
+        elif op == "typecheck":
+            fn = cas.typecheck
+        elif op == "load_cas_from_xmi":
+            if docs.get("to_xmi") is None:
+                continue
+            fn = lambda: cassis.load_cas_from_xmi(docs["to_xmi"], typesystem=ts)  # noqa: E731
+        else:
+            if docs.get("to_json") is None:
+                continue
+            fn = lambda: cassis.load_cas_from_json(docs["to_json"], typesystem=ts)  # noqa: E731
+        kind, r = _bounded(cap, fn)
+        out[op] = kind
+        if kind == "ok" and op in ("to_xmi", "to_json"):
+            docs[op] = r
+        if kind == "deadline":
+            _STATE["op_deadlines"] += 1
+            break                                           # one loop that does not end is enough for this case
+    return out, same
 
 
 def run_impl(cassis, sc):
@@ -462,9 +608,10 @@ def _run_graph(cassis, sc):
         err = _errkind(e)
     ids_after = {str(l): o.xmiID for l, o in objs.items()}
     next_after = _probe_next(cas, ts, sc["tspec"])
+    ops, same = _run_small_ops(cassis, sc, ts, members)
     _STATE["running"] = False
     return {"next_before": next_before, "ids_before": ids_before, "members": members, "sofas": sofas, "err": err,
-            "found": found, "ids_after": ids_after, "next_after": next_after}
+            "found": found, "ids_after": ids_after, "next_after": next_after, "ops": ops, "ops_same_members": same}
 
 
 # ------------------------------------------------------------------------------------------------ oracle (from the scenario)
@@ -523,9 +670,72 @@ def expected_reach(cassis, sc, obs):
     return seen
 
 
+def cyclic_inline_lists(cassis, sc, obs):
+    """[(holder label, feature)] of the lists a writer that stores them inside the holder's element would have to walk
+    for ever: features without multipleReferencesAllowed whose range is FSList / IntegerList / FloatList / StringList,
+    on structures reachable from the indexed ones, whose tail chain comes back to one of its nodes.  From the scenario."""
+    schema = scen.schema_of(cassis, sc["tspec"])
+    by = {o["o"]: o for o in sc["cspec"]["objs"]}
+    reach = expected_reach(cassis, dict(sc, inl=False, seeds=None), obs)
+    out = []
+    for l in sorted(reach):
+        o = by[l]
+        anc = schema[o["type"]]["anc"]
+        if len(anc) >= 2 and anc[1] == T + "ArrayBase":
+            continue
+        for pn, _xn, rng, _el, multi in schema[o["type"]]["feats"]:
+            if multi or not (rng in scen.LISTS or rng == FS_LIST):
+                continue
+            cur, seen = o["slots"].get(pn), set()
+            while cur is not None and "ref" in cur and any(f[0] == "head" for f in schema[by[cur["ref"]]["type"]]["feats"]):
+                if cur["ref"] in seen:
+                    out.append((l, pn))
+                    break
+                seen.add(cur["ref"])
+                cur = by[cur["ref"]]["slots"].get("tail")
+    return out
+
+
+def _duplicate_ids_possible(cassis, sc, obs, inl):
+    """a traversal from the indexed structures may legitimately report a duplicate id (ValueError)"""
+    reach = expected_reach(cassis, dict(sc, inl=inl, seeds=None), obs)
+    idb = {int(k): v for k, v in obs["ids_before"].items()}
+    explicit = [idb[l] for l in reach if idb[l] is not None]
+    forced = len(set(explicit)) < len(explicit)
+    may_collide = any(idb[l] is None for l in reach) and any(i >= obs["next_before"] for i in explicit)
+    return forced or may_collide
+
+
+def ops_oracle(cassis, sc, obs):
+    """Every operation came back (CPU deadline), and the writers / typecheck refused only what they may refuse."""
+    ops = obs.get("ops") or {}
+    size = f"{len(sc['cspec']['objs'])} feature structures, shape {sc.get('shape')}"
+    for op in SMALL_OPS:
+        if ops.get(op) in NOT_BACK:
+            return f"{op} did not come back ({ops[op]}; CPU cap {OP_CPU_CAP_S} s) on a graph of {size}"
+    for op in ("to_xmi", "to_json", "typecheck"):           # the three traverse the CAS: a duplicate id is a ValueError
+        k = ops.get(op)
+        if k in (None, "ok"):
+            continue
+        if k != "ValueError":
+            return f"{op} raised {k} on a well-formed graph ({size})"
+        if _duplicate_ids_possible(cassis, sc, obs, False) or _duplicate_ids_possible(cassis, sc, obs, True):
+            continue
+        if op == "to_xmi" and cyclic_inline_lists(cassis, sc, obs):
+            continue                                        # XMI has no inline form for a cyclic list: refusing is allowed
+        return f"{op} raised ValueError although ids are distinct and no list written inline is cyclic ({size})"
+    # the loaders are judged for coming back only: what they make of a document (e.g. of one whose indexed structure
+    # carries the id of cas:NULL) is the business of the round-trip properties
+    return None
+
+
 def oracle(cassis, sc, obs):
     if sc.get("kind") == "timing":
         return obs.get("failure")
+    return traversal_oracle(cassis, sc, obs) or ops_oracle(cassis, sc, obs)
+
+
+def traversal_oracle(cassis, sc, obs):
     reach = expected_reach(cassis, sc, obs)
     idb = {int(k): v for k, v in obs["ids_before"].items()}
     ida = {int(k): v for k, v in obs["ids_after"].items()}
@@ -582,7 +792,8 @@ def _g_cas(sc, obs):
 
 
 G_OBJ_TYPES = ["g.Node", "g.Sub", "g.Ann", FS_ARRAY, NE_LIST, E_LIST, T + "IntegerArray", T + "NonEmptyStringList",
-               T + "EmptyStringList", T + "StringArray"]
+               T + "EmptyStringList", T + "StringArray", T + "NonEmptyIntegerList", T + "EmptyIntegerList",
+               T + "NonEmptyFloatList", T + "EmptyFloatList"]
 _SCHEMA_CONST = {}
 
 
@@ -622,8 +833,10 @@ def _render_with(schema_term, sc, obs):
     err = "None" if obs["err"] is None else f"(Some {obs['err']})"
     found = glist([f"({gz(i)}, {gn(l)})" for i, l in obs["found"]])
     ids = glist([f"({gn(int(l))}, {gopt(i, gz)})" for l, i in obs["ids_after"].items()])
+    x = (obs.get("ops") or {}).get("to_xmi")
+    xmi = "None" if not obs.get("ops_same_members") or x not in ("ok", "ValueError") else f"(Some {gbool(x == 'ok')})"
     return (f"mkCase {schema_term}\n {_g_cas(sc, obs)}\n {gbool(sc['inl'])} {seeds} {err} {found}\n {ids} "
-            f"{gz(obs['next_after'] if obs['err'] is None else 0)}")
+            f"{gz(obs['next_after'] if obs['err'] is None else 0)} {xmi}")
 
 
 def nontrivial(sc):
@@ -660,10 +873,11 @@ def shrink_candidates(sc):
 def _shrink_candidates(sc):
     """clear one slot (not the offsets / sofa of an annotation), or drop one index entry"""
     objs = sc["cspec"]["objs"]
+    prim_nodes = {T + "NonEmpty%sList" % k for k in PRIM_HEAD}
     for o in objs:
         for k in list(o["slots"]):
-            if k in ("sofa", "begin", "end"):
-                continue
+            if k in ("sofa", "begin", "end") or (k == "head" and o["type"] in prim_nodes):
+                continue                                   # a node of a list of primitive values keeps its value
             c = json.loads(json.dumps(sc))
             del [x for x in c["cspec"]["objs"] if x["o"] == o["o"]][0]["slots"][k]
             yield c
@@ -687,6 +901,10 @@ def distribution(scenarios, observations):
             "inl_true": sum(1 for s in g if s["inl"]), "explicit_seeds": sum(1 for s in g if s["seeds"] is not None),
             "max_objects": max([len(s["cspec"]["objs"]) for s in g] or [0]),
             "errors_observed": sum(1 for o in observations if o and o.get("err")),
+            "small_ops_run": sum(len(o.get("ops") or {}) for o in observations if o),
+            "to_xmi_refused": sum(1 for o in observations if o and (o.get("ops") or {}).get("to_xmi") == "ValueError"),
+            "to_xmi_compared_in_coq": sum(1 for o in observations if o and o.get("ops_same_members")
+                                          and (o.get("ops") or {}).get("to_xmi") in ("ok", "ValueError")),
             "ids_assigned_cases": sum(1 for o in observations if o and o.get("found") and o["next_after"] > o["next_before"])}
 
 
@@ -695,9 +913,14 @@ def distribution(scenarios, observations):
 TIMING = os.path.join(os.path.dirname(os.path.abspath(__file__)), "c15_timing.py")
 OPS = ["typecheck", "to_xmi", "to_json", "to_json_minimal", "load_cas_from_xmi", "load_cas_from_json", "select", "cas_to_comparable_text"]
 SHAPES = ["chain", "cycle", "selfref", "diamond", "inline_array", "shared_array", "inline_list", "shared_list",
-          "cyclic_inline_list", "cyclic_shared_list", "many_small_collections", "top_fan", "deep_types", "type_ref_ladder"]
+          "cyclic_inline_list", "cyclic_shared_list", "many_small_collections", "top_fan", "deep_types", "type_ref_ladder",
+          "prim_lists", "cyclic_inline_int_list", "cyclic_inline_float_list", "cyclic_inline_string_list",
+          "cyclic_shared_prim_list"]
+LIST_SHAPES = ("inline_list", "shared_list", "cyclic_inline_list", "cyclic_shared_list", "prim_lists",
+               "cyclic_inline_int_list", "cyclic_inline_float_list", "cyclic_inline_string_list", "cyclic_shared_prim_list")
 # the only operation that may end with an exception: XMI refuses to write a cyclic list inline (ValueError)
-ALLOWED_ERRORS = {("cyclic_inline_list", "to_xmi"): "ValueError"}
+ALLOWED_ERRORS = {(sh, "to_xmi"): "ValueError" for sh in ("cyclic_inline_list", "cyclic_inline_int_list",
+                                                          "cyclic_inline_float_list", "cyclic_inline_string_list")}
 RATIO_CAP = 12.0
 RATIO_FLOOR_S = 0.05
 
@@ -708,7 +931,7 @@ def timing_sizes(shape, tier):
     if shape == "type_ref_ladder":            # depth of a type tree whose levels refer to the next level through several features
         return [15, 30, 60]
     base = [250, 500, 1000] if tier == "quick" else [1000, 2000, 4000]
-    if shape in ("inline_list", "shared_list", "cyclic_inline_list", "cyclic_shared_list"):
+    if shape in LIST_SHAPES:
         return base + ([5000] if tier == "quick" else [8000])
     return base
 
@@ -816,10 +1039,13 @@ MANIFEST = {
     "level_text": "Machine-checked proof (Coq 8.16) that the modelled reachability worklist of Cas._find_all_fs - enqueue-once "
                   "by identity, id assignment at pop, inline FSArray/FSList member scanning with a node set - never runs out "
                   "of the fuel |heap|+1 (pops <= live objects, list walk <= live objects, for all schemas, heaps and seeds, "
-                  "cyclic or not) and returns exactly the structures reachable from the seeds, each once; the unrepaired loop "
-                  "is refuted (2^(n+1)-1 pops on diamond chains, divergent list walk). The model is tied to /repo on every "
-                  "run by evaluating it inside Coq on the graphs the implementation traversed, and a deadline oracle measures "
-                  "to_xmi/to_json/load_*/typecheck/select/cas_to_comparable_text on 14 shapes at sizes n,2n,4n.",
+                  "cyclic or not) and returns exactly the structures reachable from the seeds, each once; that the XMI writer's "
+                  "walk over a list stored inline (FSList, IntegerList, FloatList, StringList) never runs out of the same fuel, "
+                  "refuses exactly the cyclic tail chains and otherwise returns the heads in order; the unrepaired loops "
+                  "are refuted (2^(n+1)-1 pops on diamond chains, divergent list walks). The models are tied to /repo on every "
+                  "run by evaluating them inside Coq on the graphs the implementation traversed and wrote, every operation is run "
+                  "under a CPU deadline on each of these graphs, and a deadline oracle measures "
+                  "to_xmi/to_json/load_*/typecheck/select/cas_to_comparable_text on 19 shapes at sizes n,2n,4n.",
     "level_note": "PARTIAL: the theorems bound loop iterations of the model (worklist pops, list-walk steps); hierarchy queries are "
                   "data lookups in Schema (ancestor lists), readers/writers are structural folds over the document / the id-sorted "
                   "list (total by Coq's guard condition). Wall-clock / CPU time of the implementation is measured (absolute cap and "
